@@ -253,6 +253,29 @@ func runC10(c *Ctx) {
 			r4.OK(p.FuncName(fn), "no schema or global write")
 		}
 	}
+	// ---- R5 rules and the value helpers they call leave the document as they found it
+	r5 := c.Rule("R5", "validation does not rearrange or rewrite the document beyond the walker's annotations", 40)
+	docScope := map[*ssa.Function]bool{}
+	var droots []*ssa.Function
+	for _, fn := range p.FuncsIn("validator/rules") {
+		if fn.Parent() == nil && (fn.Name() == "init" || strings.HasPrefix(fn.Name(), "init#")) {
+			continue
+		}
+		droots = append(droots, fn)
+	}
+	for fn := range p.reachableFrom(droots, e.dyn) {
+		pk := p.PkgOf(fn)
+		if pk == nil || !p.inModule(fn) {
+			continue
+		}
+		// the walker's own annotation writes (validator/walk.go) are the sanctioned ones; rules reach the walker only
+		// through the observer registration
+		if strings.HasSuffix(pk.PkgPath, "/validator/rules") || strings.HasSuffix(pk.PkgPath, "/ast") {
+			docScope[fn] = true
+		}
+	}
+	treeWrites(c, e, docScope, r5, "validation code")
+
 	c.Assume("library calls (fmt, strings, sort, strconv, agnivade/levenshtein) are deterministic functions of their arguments; sort.Slice on an input in deterministic order yields a deterministic order")
 }
 
